@@ -14,6 +14,14 @@ from .. import tlc, graph, common, servers, recipes, protocol, tracecheck
 CONSTS = {"quick": dict(MaxBodies=2), "thorough": dict(MaxBodies=3)}
 
 
+def unexpected_exception(ctx, res, case):
+    """no fault was injected: the call must not raise (an HTTPException is the framework's way to answer and is left to the caller)"""
+    from baize.exceptions import HTTPException
+    if res.exc is not None and not isinstance(res.exc, HTTPException) and not case.get("fault"):
+        ctx.violation(case, "a complete response", type(res.exc).__name__ + ": " + str(res.exc)[:120],
+                      "%s raised %s although nothing failed" % (case["recipe"], type(res.exc).__name__))
+
+
 def make_trace(iface, res, ended, case, zerocopy=False):
     if iface == "wsgi":
         evs, why = protocol.wsgi_events(res)
@@ -31,6 +39,8 @@ def denial(inner, with_ext=True, closes=None):
 
     async def app(scope, receive, send):
         s2 = dict(scope, type="websocket", extensions={"websocket.http.response": {}} if with_ext else {})
+        s2.pop("method", None)       # a websocket scope has no method
+        s2["subprotocols"] = []
 
         async def r2():
             m = await receive()
@@ -155,6 +165,7 @@ def run(ctx):
                             ctx.notes.append("recipe %s cannot be built: %r" % (name, e))
                             continue
                         r, ended = execute(iface, app, servers.Req(method=method, headers=hdrs), fault, zc)
+                        unexpected_exception(ctx, r, case)
                         traces.append(make_trace(iface, r, ended, case, zc))
                         ctx.count()
                         if fault or hdrs or zc or "non-ascii" in name or "latin-1" in name:
@@ -170,6 +181,7 @@ def run(ctx):
                         "fault": list(fault) if fault else None}
                 closes = []
                 r, ended = execute("asgi", denial(build("asgi", env), True, closes), servers.Req(), fault, False)
+                unexpected_exception(ctx, r, case)
                 traces.append(make_trace("asgi", r, ended, case, False))
                 ctx.count()
                 if closes:
